@@ -707,6 +707,7 @@ class AsyncServer(base_server.BaseServer):
         """Handle Engine.IO disconnect event."""
         for n in list(self.manager.get_namespaces()).copy():
             await self._handle_disconnect(eio_sid, n, reason)
+        self._binary_packet.pop(eio_sid, None)
         if eio_sid in self.environ:
             del self.environ[eio_sid]
 
